@@ -23,7 +23,8 @@ _EB2 = (_A2 - _B2)/_B2
 
 
 def _validate(arr):
-    if not isinstance(arr, numpy.ndarray):
+    if not isinstance(arr, numpy.ndarray) or arr.dtype != numpy.float64:
+        # NB: integer or single precision arrays would overflow or lose precision in what follows
         arr = numpy.array(arr, dtype='float64')
 
     if arr.shape[-1] != 3:
